@@ -234,3 +234,10 @@ package error
 //@ func ReadVarInputError
 //@   modifies nothing
 //@   ensures result != nil && fresh(result) && result.Code == ErrReadVarInput
+
+//@ external fmt.Errorf(format, args) (e)
+//@   modifies nothing
+//@   ensures e != nil && e.ptr != 0
+//@ func NewErrorSLOT
+//@   modifies nothing
+//@   ensures result != nil && result.ptr != 0
